@@ -44,6 +44,13 @@ def build_tree(rng, with_all):
         add("t/all/mtime-set-clean-payload.pyc", d[:16] + b"N")
         # the usual layout: the byte-compiled file below __pycache__, no source beside it
         add("t/all/pkg/__pycache__/mod.cpython-312.pyc", d)
+        # files of interpreters the pyc handler leaves alone (inspected, unchanged: they count), and one whose mtime field is zero already
+        add("t/all/old33.pyc", samples.old_pyc(3230))
+        add("t/all/old27.pyc", samples.old_pyc(62211))
+        add("t/all/zeroed36.pyc", samples.pyc36_zero_mtime())
+        # an archive older than the epoch as a file, whose first member is later than the epoch and whose last member is not
+        add("t/all/mixed.zip", samples.mixed_zip())
+        os.utime(t.path("t/all/mixed.zip"), ns=((samples.EPOCH - 1000) * 10 ** 9, (samples.EPOCH - 1000) * 10 ** 9))
     return t, files
 
 
@@ -117,7 +124,7 @@ def run(ctx):
     n = 0
     samples_out = []
     configs = [(MODELLED, False, []), (MODELLED, False, ["-j2"]), (None, True, []), (None, True, ["-j4"]), (["gzip"], False, []), (["-gzip"], True, []),
-               (["pyc", "pyc-zero-mtime"], True, []), (["pyc", "pyc-zero-mtime"], True, ["-j2"]), (["pyc", "pyc-zero-mtime"], True, ["-j5"]), (MODELLED, False, ["--check"]),
+               (["pyc", "pyc-zero-mtime"], True, []), (["pyc", "pyc-zero-mtime"], True, ["-j2"]), (["pyc", "pyc-zero-mtime"], True, ["-j5"]), (MODELLED, False, ["--check"]), (None, True, ["--check"]), (None, True, ["--check", "-j2"]),
                (["pyc-zero-mtime"], True, []), (["pyc-zero-mtime"], True, ["-j2"]),
                # the same files named by several arguments (every entry of the top directory by itself): hard links now span arguments
                (MODELLED, False, ["SPLIT"]), (None, True, ["SPLIT"]), (MODELLED, False, ["SPLIT", "-j2"])]
@@ -140,6 +147,12 @@ def run(ctx):
             if "--check" in mode:
                 if fh.snap_equal(before, after):
                     fails.append(("check-modified", "%s: --check changed the tree" % label, label))
+                # what --check counts is what the real run over the same tree counts
+                ref = reference.get((tuple(hsel) if hsel else None, with_all))
+                if ref is not None and summ is not None:
+                    for k in ("processed", "replaced", "rewritten", "unsupported", "errors"):
+                        if summ[k] != ref[k]:
+                            fails.append(("check-counts-differ", "%s: %s=%d but the real run reports %d" % (label, k, summ[k], ref[k]), label))
             else:
                 for kind, msg in judge(before, after, summ, label, out=out, two_handlers=(hsel is not None and "pyc" in hsel and "pyc-zero-mtime" in hsel)):
                     fails.append((kind, msg, label))
